@@ -102,7 +102,7 @@ def PInfo.lnames (pi : PInfo) : List String := pi.p.formals.map X.Formal.name ++
 
 /-- What the whole-program check establishes. -/
 structure GCtx.OK (G : GCtx) : Prop where
-  wfs : ∀ pi ∈ G.procs, ∀ sp dep hi, G.lo ≤ sp → sp + G.S pi ≤ G.spv → (KOf G pi sp dep hi).WFS (G.iEpi pi)
+  wfs : ∀ pi ∈ G.procs, ∀ sp dep hi, G.lo ≤ sp → sp + G.S pi + pi.po + pi.p.formals.length ≤ G.spv + 1 → (KOf G pi sp dep hi).WFS (G.iEpi pi)
   nodup : (labelNames G.env.ds).Nodup
   at_pro : ∀ pi ∈ G.procs, At G.env.ds pi.iPro (proDirs pi.kind pi.p.name (G.S pi))
   at_body : ∀ pi ∈ G.procs, At G.env.ds (G.iBody pi) (lowerCode G.cg pi.code)
